@@ -297,10 +297,10 @@ theorem convert_spec (d bits : List Nat) (hd : ∀ x ∈ d, x ≤ 15) (hn : d.le
       by_cases hk0 : k = 0
       · subst hk0; simp [cnt', hbl2]
       · have : ¬ 0 = k := fun h => hk0 h.symm
-        simp only [this, ↓reduceIte, cnt', hk0, Nat.one_mul, hk, Option.map_some]
+        simp only [this, ↓reduceIte, cnt', hk0, Nat.one_mul, Option.map_some]
         rw [List.getElem?_eq_getElem hk16] at h3 ⊢
         simpa using h3
-    · simp [hk, List.getElem?_range']
+    · simp [hk]
   rw [htake]
   have hnc := nextCodeLoop_spec d 15 0 (fun l hl => firstCode_add_lt d hn l (by omega))
   have hf0 : firstCode d 0 = 0 := rfl
@@ -312,13 +312,12 @@ theorem convert_spec (d bits : List Nat) (hd : ∀ x ∈ d, x ≤ 15) (hn : d.le
     cases l with
     | zero => simp [hf0]
     | succ l =>
-      simp only [List.getD_cons_succ, List.getD_eq_getElem?_getD, List.getElem?_map,
-        List.getElem?_range', Nat.one_mul]
+      simp only [List.getD_eq_getElem?_getD]
       by_cases hl : l < 15
       · have : l + 1 < 16 := by omega
-        simp [hl, this, Nat.add_comm]
+        simp [this, Nat.add_comm]
       · have : ¬ l + 1 < 16 := by omega
-        simp [hl, this]
+        simp [this]
   obtain ⟨bits', h1, h2, h3, h4⟩ := assignLoop_spec d 0
     (0 :: (List.range' (0 + 1) 15).map fun l => firstCode d l % 65536) bits
     (by simp) hd16 (by omega)
